@@ -1186,9 +1186,27 @@ impl WireProp for C17Wire {
                     }
                 };
                 // the loader must accept it (unrepresentable values may be rejected: skip those)
-                if let Ok(Err(_)) = crate::conf::load(&text) {
-                    out.excluded.push("rejected-at-load");
-                    return out;
+                match crate::conf::load(&text) {
+                    Ok(Err(_)) => {
+                        out.excluded.push("rejected-at-load");
+                        return out;
+                    }
+                    Ok(Ok(conf)) => {
+                        // an advertisement that does not fit the link (1500 - 40 octets of IPv6
+                        // header) would have to be fragmented, which RFC 6980 forbids for
+                        // neighbour discovery and receivers ignore: nothing to capture, not judged
+                        let len = guard(|| {
+                            erbium::radv::verif_build_ra(&conf, "srv0", Some(SRV_MAC), Some(1500), srv6(), Duration::from_secs(0))
+                                .map(|ra| erbium::radv::icmppkt::serialise(&erbium::radv::icmppkt::Icmp6::RtrAdvert(ra)).len())
+                        });
+                        if let Ok(Some(l)) = len {
+                            if l > 1500 - 40 {
+                                out.excluded.push("advertisement-larger-than-the-link-mtu");
+                                return out;
+                            }
+                        }
+                    }
+                    Err(_) => {}
                 }
                 let body: String = text.lines().filter(|l| !l.starts_with("---")).map(|l| format!("{}\n", l)).collect();
                 let conf = format!(
